@@ -1598,4 +1598,411 @@ theorem looseSpec_idem (c : Cls) (segs : List Seg) (l : List SecBuf) (i : Nat) (
       simp only
       rw [looseSpec_cons_false c segs _ _ i pos hw, ih]
 
+/-! ### `write_segment_data`, one member: the pure core -/
+
+/-- what one iteration of `write_segment_data` decides, as a function of the member section, its
+    `generated` flag, the cursor and the two counters -/
+inductive StepOut
+  | abort
+  | null
+  | counted (mem file : BitVec 64)
+  | placed (sec : SecBuf) (pos mem file : BitVec 64)
+
+/-- the gap in front of the member (`none`: the save is aborted) -/
+def stepGap (g : Seg) (segStart : BitVec 64) (sec : SecBuf) (generated : Bool) (pos file : BitVec 64) :
+    Option (BitVec 64) :=
+  if wsd_addr_branch generated sec.addrSet sec.stype sec.size then
+    let req := wsd_req_offset sec.addr g.vaddr
+    let cur := wsd_cur_offset pos segStart
+    if wsd_req_lt_cur req cur then none else some (wsd_gap_addr req cur)
+  else if wsd_align_branch generated sec.addrSet then
+    let al := if wsd_align_zero sec.addrAlign then 1 else sec.addrAlign
+    some (wsd_gap_align al (wsd_error pos al))
+  else if generated then some (wsd_gap_generated sec.offset segStart file)
+  else some 0
+
+/-- the section as `write_segment_data` leaves it when it places it at `pos1` -/
+def stepPlace (c : Cls) (g : Seg) (segStart : BitVec 64) (sec : SecBuf) (pos1 : BitVec 64) : SecBuf :=
+  setOffset c (if !sec.addrSet then
+    { sec with addr := truncA c (wsd_new_addr g.vaddr pos1 segStart), addrSet := true } else sec) pos1
+
+def stepCore (c : Cls) (g : Seg) (segStart : BitVec 64) (sec : SecBuf) (generated : Bool)
+    (pos mem file : BitVec 64) : StepOut :=
+  if wsd_is_null sec.stype then .null else
+  match stepGap g segStart sec generated pos file with
+  | none => .abort
+  | some gap =>
+    let mem' := if wsd_counts_mem sec.flags g.stype sec.stype then wsd_mem_add mem sec.size gap else mem
+    let file' := if wsd_counts_file sec.stype then wsd_file_add file sec.size gap else file
+    if generated then .counted mem' file' else
+    let pos1 := wsd_cursor_gap pos gap
+    .placed (stepPlace c g segStart sec pos1)
+      (if wsd_counts_file sec.stype then wsd_advance pos1 sec.size else pos1) mem' file'
+
+def applyOut (st : WsdSt) (i : Nat) : StepOut → Option WsdSt
+  | .abort => none
+  | .null => some { st with lay := { st.lay with gen := st.lay.gen.set i true } }
+  | .counted m f => some { st with mem := m, file := f }
+  | .placed s p m f =>
+    some { lay := { secs := st.lay.secs.set i s, pos := p, gen := st.lay.gen.set i true }, mem := m, file := f }
+
+theorem stepPlace_fields (c : Cls) (g : Seg) (ss : BitVec 64) (sec : SecBuf) (p : BitVec 64) :
+    (stepPlace c g ss sec p).stype = sec.stype ∧ (stepPlace c g ss sec p).size = sec.size := by
+  unfold stepPlace
+  obtain ⟨e1, e2, _, _⟩ := setOffset_fields c (if !sec.addrSet then
+    { sec with addr := truncA c (wsd_new_addr g.vaddr p ss), addrSet := true } else sec) p
+  rw [e1, e2]
+  split <;> exact ⟨rfl, rfl⟩
+
+theorem wsdStep_eq (c : Cls) (g : Seg) (ss : BitVec 64) (st : WsdSt) (idx : BitVec 16) :
+    wsdStep c g ss st idx =
+      match st.lay.secs[idx.toNat]?, st.lay.gen[idx.toNat]? with
+      | none, _ => throw (.nullDeref "write_segment_data/sections[index]")
+      | _, none => throw (.vecOob "write_segment_data/section_generated[index]")
+      | some sec, some generated =>
+        pure (applyOut st idx.toNat (stepCore c g ss sec generated st.lay.pos st.mem st.file)) := by
+  unfold wsdStep
+  cases hs : st.lay.secs[idx.toNat]? with
+  | none => rfl
+  | some sec =>
+  cases hg : st.lay.gen[idx.toNat]? with
+  | none => rfl
+  | some generated =>
+    simp only
+    unfold stepCore
+    by_cases hn : wsd_is_null sec.stype = true
+    · rw [if_pos hn, if_pos hn]; rfl
+    · rw [if_neg hn, if_neg hn]
+      show (match stepGap g ss sec generated st.lay.pos st.file with
+        | none => pure none
+        | some gap => _) = _
+      cases stepGap g ss sec generated st.lay.pos st.file with
+      | none => rfl
+      | some gap =>
+        simp only
+        by_cases hgen : generated = true
+        · rw [if_pos hgen, if_pos hgen]; rfl
+        · rw [if_neg hgen, if_neg hgen]
+          obtain ⟨e1, e2⟩ := stepPlace_fields c g ss sec (wsd_cursor_gap st.lay.pos gap)
+          unfold stepPlace at e1 e2 ⊢
+          simp only [e1, e2, applyOut]
+
+/-! ### locality: the segment passes read and write member sections only -/
+
+/-- two layouts agree on the index set `S` -/
+structure AgreeOn (S : Nat → Prop) (l1 l2 : Layout) : Prop where
+  pos : l1.pos = l2.pos
+  secs : ∀ i, S i → l1.secs[i]? = l2.secs[i]?
+  gen : ∀ i, S i → l1.gen[i]? = l2.gen[i]?
+
+def AgreeSt (S : Nat → Prop) (s1 s2 : WsdSt) : Prop :=
+  AgreeOn S s1.lay s2.lay ∧ s1.mem = s2.mem ∧ s1.file = s2.file
+
+/-- two monadic results are of the same kind and related -/
+def RelM {α β} (R : α → β → Prop) : M (Option α) → M (Option β) → Prop
+  | .ok (some a), .ok (some b) => R a b
+  | .ok none, .ok none => True
+  | .error e1, .error e2 => e1 = e2
+  | _, _ => False
+
+theorem getElem?_set_agree {α} {l1 l2 : List α} {i j : Nat} {x : α} (h1 : i < l1.length) (h2 : i < l2.length)
+    (h : l1[j]? = l2[j]?) : (l1.set i x)[j]? = (l2.set i x)[j]? := by
+  rw [List.getElem?_set, List.getElem?_set]
+  by_cases hij : i = j
+  · subst hij; simp [h1, h2]
+  · simp [hij, h]
+
+theorem wsdStep_agree {S : Nat → Prop} {c : Cls} {g : Seg} {ss : BitVec 64} {st1 st2 : WsdSt} {idx : BitVec 16}
+    (hS : S idx.toNat) (ha : AgreeSt S st1 st2) :
+    RelM (AgreeSt S) (wsdStep c g ss st1 idx) (wsdStep c g ss st2 idx) := by
+  obtain ⟨⟨hp, hsec, hgen⟩, hm, hf⟩ := ha
+  rw [wsdStep_eq, wsdStep_eq, ← hsec _ hS, ← hgen _ hS, ← hp, ← hm, ← hf]
+  cases hs : st1.lay.secs[idx.toNat]? with
+  | none => exact rfl
+  | some sec =>
+  cases hg : st1.lay.gen[idx.toNat]? with
+  | none => exact rfl
+  | some generated =>
+    have l1 : idx.toNat < st1.lay.secs.length := by
+      rcases Nat.lt_or_ge idx.toNat st1.lay.secs.length with h | h
+      · exact h
+      · rw [List.getElem?_eq_none h] at hs; cases hs
+    have l2 : idx.toNat < st2.lay.secs.length := by
+      rcases Nat.lt_or_ge idx.toNat st2.lay.secs.length with h | h
+      · exact h
+      · have := hsec _ hS; rw [hs, List.getElem?_eq_none h] at this; cases this
+    have g1 : idx.toNat < st1.lay.gen.length := by
+      rcases Nat.lt_or_ge idx.toNat st1.lay.gen.length with h | h
+      · exact h
+      · rw [List.getElem?_eq_none h] at hg; cases hg
+    have g2 : idx.toNat < st2.lay.gen.length := by
+      rcases Nat.lt_or_ge idx.toNat st2.lay.gen.length with h | h
+      · exact h
+      · have := hgen _ hS; rw [hg, List.getElem?_eq_none h] at this; cases this
+    simp only [pure, Except.pure]
+    cases stepCore c g ss sec generated st1.lay.pos st1.mem st1.file with
+    | abort => exact trivial
+    | null =>
+      exact ⟨⟨hp, hsec, fun j hj => getElem?_set_agree g1 g2 (hgen j hj)⟩, hm, hf⟩
+    | counted m f => exact ⟨⟨hp, hsec, hgen⟩, rfl, rfl⟩
+    | placed s p m f =>
+      exact ⟨⟨rfl, fun j hj => getElem?_set_agree l1 l2 (hsec j hj),
+        fun j hj => getElem?_set_agree g1 g2 (hgen j hj)⟩, rfl, rfl⟩
+
+theorem wsdLoop_agree {S : Nat → Prop} {c : Cls} {g : Seg} {ss : BitVec 64} (l : List (BitVec 16))
+    (hl : ∀ idx ∈ l, S idx.toNat) {st1 st2 : WsdSt} (ha : AgreeSt S st1 st2) :
+    RelM (AgreeSt S) (wsdLoop c g ss l st1) (wsdLoop c g ss l st2) := by
+  induction l generalizing st1 st2 with
+  | nil => exact ha
+  | cons idx rest ih =>
+    have hstep := wsdStep_agree (c := c) (g := g) (ss := ss) (hl idx List.mem_cons_self) ha
+    simp only [wsdLoop, bind, Except.bind]
+    cases h1 : wsdStep c g ss st1 idx with
+    | error e1 =>
+      cases h2 : wsdStep c g ss st2 idx with
+      | error e2 => rw [h1, h2] at hstep; exact hstep
+      | ok r2 => rw [h1, h2] at hstep; cases r2 <;> exact hstep.elim
+    | ok r1 =>
+      cases h2 : wsdStep c g ss st2 idx with
+      | error e2 => rw [h1, h2] at hstep; cases r1 <;> exact hstep.elim
+      | ok r2 =>
+        rw [h1, h2] at hstep
+        cases r1 with
+        | none => cases r2 with
+          | none => exact trivial
+          | some b => exact hstep.elim
+        | some a => cases r2 with
+          | none => exact hstep.elim
+          | some b => exact ih (fun i hi => hl i (List.mem_cons_of_mem _ hi)) hstep
+
+/-- same kind and related, for plain monadic results -/
+def RelM1 {α β} (R : α → β → Prop) : M α → M β → Prop
+  | .ok a, .ok b => R a b
+  | .error e1, .error e2 => e1 = e2
+  | _, _ => False
+
+theorem segStartOf_agree {S : Nat → Prop} {phoff : BitVec 64} {pe pn : BitVec 16} {l1 l2 : Layout} {g : Seg}
+    (hS : ∀ idx ∈ g.secs, S idx.toNat) (ha : AgreeOn S l1 l2) :
+    RelM1 (fun p1 p2 => AgreeOn S p1.1 p2.1 ∧ p1.2 = p2.2)
+      (segStartOf phoff pe pn l1 g) (segStartOf phoff pe pn l2 g) := by
+  unfold segStartOf
+  cases hh : g.secs.head? with
+  | none =>
+    simp only [pure_bind]
+    by_cases h1 : lseg_is_phdr g.stype (BitVec.ofNat 16 g.secs.length) = true
+    · simp only [h1, if_true]; exact ⟨ha, rfl⟩
+    · simp only [h1, if_false]
+      by_cases h2 : lseg_offset0 g.offsetSet g.offset = true
+      · simp only [h2, if_true, ha.pos]; exact ⟨ha, rfl⟩
+      · simp only [h2, if_false]
+        by_cases h3 : (decide (g.secs.length > 0) && !false) = true
+        · simp only [h3, if_true, ha.pos]
+          exact ⟨⟨rfl, ha.secs, ha.gen⟩, rfl⟩
+        · simp only [h3, if_false]
+          by_cases h4 : g.secs.length > 0
+          · simp only [h4, if_true, ha.pos]; exact ⟨ha, rfl⟩
+          · simp only [h4, if_false, ha.pos]; exact ⟨ha, rfl⟩
+  | some f =>
+    have hf : S f.toNat := hS f (List.mem_of_mem_head? hh)
+    simp only
+    rw [← ha.gen _ hf]
+    cases hg : l1.gen[f.toNat]? with
+    | none => exact rfl
+    | some b =>
+      simp only [pure_bind]
+      by_cases h1 : lseg_is_phdr g.stype (BitVec.ofNat 16 g.secs.length) = true
+      · simp only [h1, if_true]; exact ⟨ha, rfl⟩
+      · simp only [h1, if_false]
+        by_cases h2 : lseg_offset0 g.offsetSet g.offset = true
+        · simp only [h2, if_true, ha.pos]; exact ⟨ha, rfl⟩
+        · simp only [h2, if_false]
+          by_cases h3 : (decide (g.secs.length > 0) && !b) = true
+          · simp only [h3, if_true, ha.pos]
+            exact ⟨⟨rfl, ha.secs, ha.gen⟩, rfl⟩
+          · simp only [h3, if_false]
+            by_cases h4 : g.secs.length > 0
+            · simp only [h4, if_true]
+              rw [← ha.secs _ hf]
+              cases l1.secs[f.toNat]? with
+              | none => exact rfl
+              | some s => exact ⟨ha, rfl⟩
+            · simp only [h4, if_false, ha.pos]; exact ⟨ha, rfl⟩
+
+theorem layoutSegment_agree {S : Nat → Prop} {c : Cls} {phoff : BitVec 64} {pe pn : BitVec 16} {l1 l2 : Layout}
+    {g : Seg} (hS : ∀ idx ∈ g.secs, S idx.toNat) (ha : AgreeOn S l1 l2) :
+    RelM (fun p1 p2 => AgreeOn S p1.1 p2.1 ∧ p1.2 = p2.2)
+      (layoutSegment c phoff pe pn l1 g) (layoutSegment c phoff pe pn l2 g) := by
+  rw [layoutSegment_eq, layoutSegment_eq]
+  have h0 := segStartOf_agree (phoff := phoff) (pe := pe) (pn := pn) hS ha
+  simp only [bind, Except.bind]
+  cases e1 : segStartOf phoff pe pn l1 g with
+  | error x1 =>
+    cases e2 : segStartOf phoff pe pn l2 g with
+    | error x2 => rw [e1, e2] at h0; exact h0
+    | ok p2 => rw [e1, e2] at h0; exact h0.elim
+  | ok p1 =>
+    cases e2 : segStartOf phoff pe pn l2 g with
+    | error x2 => rw [e1, e2] at h0; exact h0.elim
+    | ok p2 =>
+      rw [e1, e2] at h0
+      obtain ⟨a1, a2⟩ := h0
+      simp only
+      have hss : p1.2.1 = p2.2.1 := by rw [a2]
+      have hm : p1.2.2.1 = p2.2.2.1 := by rw [a2]
+      have hf : p1.2.2.2 = p2.2.2.2 := by rw [a2]
+      have hl := wsdLoop_agree (c := c) (g := g) (ss := p1.2.1) g.secs hS
+        (st1 := { lay := p1.1, mem := p1.2.2.1, file := p1.2.2.2 })
+        (st2 := { lay := p2.1, mem := p2.2.2.1, file := p2.2.2.2 }) ⟨a1, hm, hf⟩
+      rw [← hss]
+      cases w1 : wsdLoop c g p1.2.1 g.secs { lay := p1.1, mem := p1.2.2.1, file := p1.2.2.2 } with
+      | error x1 =>
+        cases w2 : wsdLoop c g p1.2.1 g.secs { lay := p2.1, mem := p2.2.2.1, file := p2.2.2.2 } with
+        | error x2 => rw [w1, w2] at hl; exact hl
+        | ok r2 => rw [w1, w2] at hl; cases r2 <;> exact hl.elim
+      | ok r1 =>
+        cases w2 : wsdLoop c g p1.2.1 g.secs { lay := p2.1, mem := p2.2.2.1, file := p2.2.2.2 } with
+        | error x2 => rw [w1, w2] at hl; cases r1 <;> exact hl.elim
+        | ok r2 =>
+          rw [w1, w2] at hl
+          cases r1 with
+          | none => cases r2 with
+            | none => exact trivial
+            | some b => exact hl.elim
+          | some a => cases r2 with
+            | none => exact hl.elim
+            | some b =>
+              obtain ⟨b1, b2, b3⟩ := hl
+              refine ⟨b1, ?_⟩
+              show segFinish c g p1.2.1 a = segFinish c g p1.2.1 b
+              unfold segFinish
+              rw [b2, b3]
+
+theorem saveFold_agree {S : Nat → Prop} {c : Cls} {e : Enc} {h0 : Bytes} (ordered : List Seg)
+    (hS : ∀ g ∈ ordered, ∀ idx ∈ g.secs, S idx.toNat) {l1 l2 : Layout} (ha : AgreeOn S l1 l2) (done : List Seg) :
+    RelM (fun p1 p2 => AgreeOn S p1.1 p2.1 ∧ p1.2 = p2.2)
+      (ordered.foldlM (saveStep c e h0) (some (l1, done))) (ordered.foldlM (saveStep c e h0) (some (l2, done))) := by
+  induction ordered generalizing l1 l2 done with
+  | nil => exact ⟨ha, rfl⟩
+  | cons g rest ih =>
+    have hl := layoutSegment_agree (c := c) (phoff := Hdr.e_phoff c e h0) (pe := Hdr.e_phentsize c e h0)
+      (pn := Hdr.e_phnum c e h0) (hS g List.mem_cons_self) ha
+    simp only [List.foldlM_cons, saveStep, bind, Except.bind]
+    cases w1 : layoutSegment c (Hdr.e_phoff c e h0) (Hdr.e_phentsize c e h0) (Hdr.e_phnum c e h0) l1 g with
+    | error x1 =>
+      cases w2 : layoutSegment c (Hdr.e_phoff c e h0) (Hdr.e_phentsize c e h0) (Hdr.e_phnum c e h0) l2 g with
+      | error x2 => rw [w1, w2] at hl; exact hl
+      | ok r2 => rw [w1, w2] at hl; cases r2 <;> exact hl.elim
+    | ok r1 =>
+      cases w2 : layoutSegment c (Hdr.e_phoff c e h0) (Hdr.e_phentsize c e h0) (Hdr.e_phnum c e h0) l2 g with
+      | error x2 => rw [w1, w2] at hl; cases r1 <;> exact hl.elim
+      | ok r2 =>
+        rw [w1, w2] at hl
+        cases r1 with
+        | none => cases r2 with
+          | none =>
+            simp only [pure, Except.pure]
+            rw [saveFold_none]; exact trivial
+          | some b => exact hl.elim
+        | some a => cases r2 with
+          | none => exact hl.elim
+          | some b =>
+            obtain ⟨b1, b2⟩ := hl
+            simp only [pure, Except.pure]
+            rw [b2]
+            exact ih (fun g' hg' => hS g' (List.mem_cons_of_mem _ hg')) b1 _
+
+/-! #### the passes around the segment loop -/
+
+theorem allResident_getElem? (c : Cls) (tr : List Trans) (l : List SecBuf) (ls : LoadSt) (acc : List SecBuf)
+    (i : Nat) (a : SecBuf) (ha : l[i]? = some a) (hs : a.Settled) :
+    (allResident c tr l ls acc).1[acc.length + i]? = some a := by
+  induction l generalizing ls acc i with
+  | nil => cases ha
+  | cons b rest ih =>
+    unfold allResident
+    cases i with
+    | zero =>
+      simp only [List.getElem?_cons_zero, Option.some.injEq] at ha
+      subst ha
+      rw [secGetData_id c tr ls b hs]
+      simp only
+      obtain ⟨l', e, f⟩ := allResident_frame c tr rest ls (b :: acc)
+      rw [e]
+      simp
+    | succ j =>
+      simp only [List.getElem?_cons_succ] at ha
+      have := ih (secGetData c tr ls b).1 ((secGetData c tr ls b).2 :: acc) j ha
+      simp only [List.length_cons] at this
+      rw [← this]; congr 1; omega
+
+theorem residentForSave_getElem? (c : Cls) (tr : List Trans) (l : List SecBuf) (ls : LoadSt) (acc : List SecBuf)
+    (i : Nat) (a : SecBuf) (ha : l[i]? = some a) (hs : a.Settled) :
+    (residentForSave c tr l ls acc).1[acc.length + i]? = some a := by
+  induction l generalizing ls acc i with
+  | nil => cases ha
+  | cons b rest ih =>
+    unfold residentForSave
+    cases i with
+    | zero =>
+      simp only [List.getElem?_cons_zero, Option.some.injEq] at ha
+      subst ha
+      split
+      · rw [secGetData_id c tr ls b hs]
+        simp only
+        obtain ⟨l', e, f⟩ := residentForSave_frame c tr rest ls (b :: acc)
+        rw [e]; simp
+      · obtain ⟨l', e, f⟩ := residentForSave_frame c tr rest ls (b :: acc)
+        rw [e]; simp
+    | succ j =>
+      simp only [List.getElem?_cons_succ] at ha
+      split
+      · have := ih (secGetData c tr ls b).1 ((secGetData c tr ls b).2 :: acc) j ha
+        simp only [List.length_cons] at this
+        rw [← this]; congr 1; omega
+      · have := ih ls (b :: acc) j ha
+        simp only [List.length_cons] at this
+        rw [← this]; congr 1; omega
+
+/-- a section that belongs to a segment is not touched by the loose-section pass -/
+theorem looseSpec_getElem?_member (c : Cls) (segs : List Seg) (l : List SecBuf) (i0 : Nat) (pos : BitVec 64)
+    (i : Nat) (hw : withoutSegment segs (i0 + i) = false) :
+    (looseSpec c segs l i0 pos).1[i]? = l[i]? := by
+  induction l generalizing i0 pos i with
+  | nil => rfl
+  | cons s rest ih =>
+    by_cases hw0 : withoutSegment segs i0 = true
+    · rw [looseSpec_cons_true c segs s rest i0 pos hw0]
+      cases i with
+      | zero => rw [Nat.add_zero, hw0] at hw; cases hw
+      | succ j =>
+        simp only [List.getElem?_cons_succ]
+        exact ih (i0 + 1) _ j (by rw [← hw]; congr 1; omega)
+    · rw [looseSpec_cons_false c segs s rest i0 pos hw0]
+      cases i with
+      | zero => rfl
+      | succ j =>
+        simp only [List.getElem?_cons_succ]
+        exact ih (i0 + 1) _ j (by rw [← hw]; congr 1; omega)
+
+theorem calcSegAlign_congr {secs secs' : List SecBuf} {g : Seg}
+    (h : ∀ idx ∈ g.secs, secs'[idx.toNat]? = secs[idx.toNat]?) : calcSegAlign secs' g = calcSegAlign secs g := by
+  unfold calcSegAlign
+  generalize g.secs = l at h
+  induction l generalizing g with
+  | nil => rfl
+  | cons idx rest ih =>
+    simp only [List.foldlM_cons]
+    rw [h idx List.mem_cons_self]
+    apply bind_congr
+    intro g'
+    exact ih (fun i hi => h i (List.mem_cons_of_mem _ hi))
+
+theorem mapM_congr' {α β} {f f' : α → M β} {l : List α} (h : ∀ a ∈ l, f' a = f a) : l.mapM f' = l.mapM f := by
+  induction l with
+  | nil => rfl
+  | cons a rest ih =>
+    simp only [List.mapM_cons]
+    rw [h a List.mem_cons_self, ih (fun b hb => h b (List.mem_cons_of_mem _ hb))]
+
+
 end ElfioVerif
